@@ -127,7 +127,6 @@ Section AckHalf.
       splits; try congruence; try lia.
       destruct dups as [|d dr]; [destruct segs; [congruence|cbn in L2; lia]|].
       exists d, dr. split; [reflexivity|]. now rewrite Q3, Q4 in FA2.
-    - cbn [set_in_text mtu]. congruence.
   Qed.
 
   (* the receiver's half: the first duplicate ACK empties the sender's queue *)
@@ -173,7 +172,7 @@ Section AckHalf.
     rewrite Ny2'. cbn [length]. rewrite map_length. cbn iota.
     replace (Datatypes.S (Datatypes.S (length dr))) with (Datatypes.S (length dr + 1))%nat by lia.
     assert (Ez2 : end_of s2 (other y) = ELive tz) by (subst s2 s1; now sysr).
-    inversion FA as [|? ? Fd Fdr]; subst.
+    pose proof (Forall_inv FA) as Fd. pose proof (Forall_inv_tail FA) as Fdr.
     assert (HR : wadd a (flight_len segs) = R) by apply HS.
     assert (HS0 : sending tz a R b (segs ++ []) []) by (now rewrite app_nil_r).
     destruct (deliver_ack_cum y b R [] segs [] d s2 tz a (length dr + 1)%nat (map mk dr ++ [])
